@@ -99,6 +99,10 @@ func randType(r *rand.Rand, depth int) reflect.Type {
 		for i := range fs {
 			fs[i] = reflect.StructField{Name: fmt.Sprintf("F%d", i), Type: randType(r, depth-1)}
 		}
+		if n > 0 && r.Intn(4) == 0 {
+			// an embedded struct as first field (a type without methods, which reflect.StructOf accepts)
+			fs[0] = reflect.StructField{Name: "EmbHeaderLike", Anonymous: true, Type: reflect.TypeOf(embPlain{})}
+		}
 		return reflect.StructOf(fs)
 	}
 }
@@ -205,6 +209,38 @@ func bigRecs(n int) []bigRec {
 
 var sharedPtr = new(int64)
 
+type embPlain struct {
+	ID   int32
+	Name string
+	P    *int16
+}
+
+// embedded (anonymous) struct fields: one field each, whose own fields are promoted
+type embHeader struct {
+	ID   int32
+	Name string
+}
+
+type embRecord struct {
+	embHeader
+	Vals []int32
+}
+
+type embDeep struct {
+	embRecord
+	*embHeader
+	Extra [2]embHeader
+}
+
+// two pointers with the same address and different pointee types
+type addrOuter struct {
+	First int64
+	Rest  [3]string
+}
+
+var addrVal = addrOuter{1, [3]string{"a", "bcd", ""}}
+var addrArr = [4]int32{1, 2, 3, 4}
+
 type namedU struct {
 	A uint
 	B uintptr
@@ -250,8 +286,20 @@ var namedValues = map[string]interface{}{
 		}
 		return r
 	}(),
-	"big-bytes":   make([]byte, 70000),
-	"alias-slice": []*int64{sharedPtr, sharedPtr, nil, sharedPtr},
+	"big-bytes":      make([]byte, 70000),
+	"embedded":       embRecord{embHeader{7, "abc"}, []int32{1, 2}},
+	"embedded-deep":  embDeep{embRecord{embHeader{1, "x"}, nil}, &embHeader{2, "yz"}, [2]embHeader{{3, "q"}, {4, ""}}},
+	"embedded-slice": []embRecord{{embHeader{1, "a"}, nil}, {embHeader{2, "bb"}, []int32{5}}},
+	"same-address-1": struct {
+		A *addrOuter
+		B *int64
+	}{&addrVal, &addrVal.First},
+	"same-address-2": struct {
+		B *int64
+		A *addrOuter
+	}{&addrVal.First, &addrVal},
+	"same-address-3": []interface{}{&addrArr, &addrArr[0], &addrArr},
+	"alias-slice":    []*int64{sharedPtr, sharedPtr, nil, sharedPtr},
 	"alias-fields": struct {
 		A, B *int64
 		C    interface{}
